@@ -526,7 +526,9 @@ func (s *Storm) fire(r *rand.Rand, c trace.Call, fail, boom bool, holdUs int64, 
 		if o, ok := out.Result[ownerMark]; ok {
 			s.find("iso", "pool."+c.Method+"/result-map-shared", fmt.Sprintf("pool.%s: the result map handed to request %d is the one request %v received (its owner mark is in it)", c.Method, id, o), nil)
 		}
-		out.Result[ownerMark] = -id
+		if id%3 != 0 {
+			out.Result[ownerMark] = -id
+		} // every third caller leaves the map exactly as it got it (an empty one stays empty): it is compared again later
 	}
 	d.snap = map[string]interface{}{}
 	for k, v := range out.Result {
